@@ -11,9 +11,11 @@ whose `norm` preserves the value of expressions and whose `gzero` only says "zer
 expressions that are zero.
 
 Not modelled (the passes return `unsupported`): vector expansion (`_expand_vectors`, property
-C18), the SX round trip `_expand_simplify_mx`, elimination of a *differentiated* state through
-`eliminable_variable_expression` (needs the symbolic time derivative), and the collapse into
-`A x + b` (`reduce_affine_expression`; covered by the direct oracle of the harness only).
+C18), the SX round trip `_expand_simplify_mx`, and elimination of a *differentiated* state through
+`eliminable_variable_expression` (needs the symbolic time derivative).  The collapse into `A x + b`
+(`reduce_affine_expression`) is modelled row by row on the scalar equations (`reduceAffine`): the
+Jacobian CasADi computes by algorithmic differentiation is the symbolic derivative `Ex.diff` here,
+both evaluated with the states at 0 and the constants and parameters kept symbolic.
 Variable metadata other than `value` (min/max/nominal/start/fixed) belongs to C13/C16.
 -/
 namespace PymocaVerif.Simplify
@@ -544,6 +546,38 @@ def detectAliases (E : Engine K) (allowDer : Bool) (m : Model K) : Except Err (M
                    eqs := kept.map (E.sub l), inits := m.inits.map (E.sub l),
                    delays := substDelays E l m.delays, ar := ar }
 
+/-! ## reduce_affine_expression -/
+
+/-- derivative with respect to the symbol `x`; exact on the affine fragment (sums, differences, negation,
+    doubling, products, quotients), `0` for every operation the fragment does not contain -/
+def Ex.diff [OfNat K 0] [OfNat K 1] (x : String) : Ex K → Ex K
+  | .sym n => if n = x then .const 1 else .const 0
+  | .const _ => .const 0
+  | .un .neg a => .un .neg (a.diff x)
+  | .un .twice a => .un .twice (a.diff x)
+  | .bin .add a b => .bin .add (a.diff x) (b.diff x)
+  | .bin .sub a b => .bin .sub (a.diff x) (b.diff x)
+  | .bin .mul a b => .bin .add (.bin .mul (a.diff x) b) (.bin .mul a (b.diff x))
+  | .bin .div a b => .bin .div (a.diff x) b
+  | _ => .const 0
+
+/-- `Σ_j A_j * x_j` as an expression -/
+def linComb : List (Ex K × String) → Ex K → Ex K
+  | [], b => b
+  | (a, x) :: rest, b => .bin .add (.bin .mul a (.sym x)) (linComb rest b)
+
+/-- row of `A x + b` for one equation: `A_j = ∂e/∂x_j` and `b = e`, both with every `x` at 0 -/
+def affineRow [OfNat K 0] [OfNat K 1] (xs : List String) (e : Ex K) : Ex K :=
+  let zeros : List (String × Ex K) := xs.map fun x => (x, Ex.const 0)
+  linComb (xs.map fun x => ((e.diff x).subst zeros, x)) (e.subst zeros)
+
+/-- the symbols the affine form is taken in: states, derivatives, algebraic states, inputs -/
+def Model.affineVars (m : Model K) : List String :=
+  names m.states ++ names m.ders ++ names m.algs ++ names m.inputs
+
+def reduceAffine [OfNat K 0] [OfNat K 1] (m : Model K) : Model K :=
+  { m with eqs := m.eqs.map (affineRow m.affineVars), inits := m.inits.map (affineRow m.affineVars) }
+
 /-! ## the pipeline -/
 
 structure Opts where
@@ -606,26 +640,31 @@ def runPasses [DecidableEq K] [Neg K] [OfNat K 0] (E : Pass → Engine K) (o : O
       | .ok m' => runPasses E o ps m'
     else runPasses E o ps m
 
-/-- `_simplify_once` on the modelled fragment (scalar models, no affine collapse) -/
-def simplifyOnce [DecidableEq K] [Neg K] [OfNat K 0] (E : Pass → Engine K) (o : Opts) (m : Model K) :
+/-- `_simplify_once` on the modelled fragment (scalar models) -/
+def simplifyOnce [DecidableEq K] [Neg K] [OfNat K 0] [OfNat K 1] (E : Pass → Engine K) (o : Opts) (m : Model K) :
     Except Err (Model K) :=
   if o.expandVectors then .error (.unsupported "expand_vectors")
-  else if o.reduceAffine then .error (.unsupported "reduce_affine_expression")
-  else runPasses E o Pass.order m
+  else
+    match runPasses E o Pass.order m with
+    | .error err => .error err
+    | .ok m' => .ok (if o.reduceAffine then reduceAffine m' else m')
 
 /-- the loop of `simplify`: `left` is `alg_states_left`, `E i` the observations of iteration `i` -/
-def simplifyLoop [DecidableEq K] [Neg K] [OfNat K 0] (E : Nat → Pass → Engine K) (o : Opts) :
+def simplifyLoop [DecidableEq K] [Neg K] [OfNat K 0] [OfNat K 1] (E : Nat → Pass → Engine K) (o : Opts) :
     Nat → Nat → Nat → Model K → Except Err (Model K)
   | 0, _, _, m => .ok { m with warned := true }
   | fuel + 1, i, left, m =>
     match simplifyOnce (E i) o m with
     | .error err => .error err
     | .ok m' =>
-      if o.iterative ∧ left ≠ m'.algs.length then simplifyLoop E o fuel (i + 1) m'.algs.length m'
+      if o.iterative ∧ left ≠ m'.algs.length then
+        -- the real code re-runs the passes on the collapsed vector expression and raises (finding C15-F7)
+        if o.reduceAffine then .error (.unsupported "iteration after the affine collapse")
+        else simplifyLoop E o fuel (i + 1) m'.algs.length m'
       else .ok m'
 
 /-- `Model.simplify` (SIMPLIFICATION_LOOP_LIMIT = 50) -/
-def simplify [DecidableEq K] [Neg K] [OfNat K 0] (E : Nat → Pass → Engine K) (o : Opts) (m : Model K) :
+def simplify [DecidableEq K] [Neg K] [OfNat K 0] [OfNat K 1] (E : Nat → Pass → Engine K) (o : Opts) (m : Model K) :
     Except Err (Model K) :=
   simplifyLoop E o 50 0 0 m
 
